@@ -6,6 +6,7 @@ from harness import parser_rec
 from harness.coqfmt import B, L, N, X
 
 ID = 'C04'
+COVERAGE_NOTE = 'the fragmentation / shared-machine feeds run in forked worker processes which are not measured; the numbers below cover the compose, whole-wire parse and table recording done in the harness process'
 PROPS = 'Props/C04.v'
 TABLES = ['HeadersT', 'ParserT', 'StartLineT', 'ComposerT']
 # a case of the correspondence is either the round trip of Corr/C04.v (composer model, then the parser model on the MODEL's octets in one call) or a
